@@ -211,12 +211,16 @@ def _run_unamb(ctx, spec, rng):
     vecs = [gen.unit(rng, d, cplx) for _ in range(n)]
     p = gen.prior(rng, n, 1 + r % 2)
     inp = [v.reshape(-1, 1).copy() for v in vecs] if r % 3 else [v.copy() for v in vecs]
-    up = _solve(ctx, state_exclusion, _fresh(inp), list(p), strategy="unambiguous", primal_dual="primal", mech=f"crash:state_exclusion-unambiguous-primal[{field}]")
-    ud = _solve(ctx, state_exclusion, _fresh(inp), list(p), strategy="unambiguous", primal_dual="dual", mech=f"crash:state_exclusion-unambiguous-dual[{field}]")
+    # solver configuration: cvxopt's default accuracy makes its KKT solver break down (ZeroDivisionError) on most of these programs;
+    # with the documented pass-through option abs_ipm_opt_tol = 1e-5 both forms return non-trivial values
+    kw = {"abs_ipm_opt_tol": 1e-5} if r % 4 else {}
+    tol = 2e-3 if kw else 1e-4
+    up = _solve(ctx, state_exclusion, _fresh(inp), list(p), strategy="unambiguous", primal_dual="primal", mech=f"crash:state_exclusion-unambiguous-primal[{field}]", **kw)
+    ud = _solve(ctx, state_exclusion, _fresh(inp), list(p), strategy="unambiguous", primal_dual="dual", mech=f"crash:state_exclusion-unambiguous-dual[{field}]", **kw)
     if up is None or ud is None or up[0] is None or ud[0] is None:
         return
     a, b = float(np.real(up[0])), float(np.real(ud[0]))
     if np.isfinite(a) and np.isfinite(b):
-        ctx.check("O4:unambiguous-primal=dual", None, dev=abs(a - b), tol=1e-4, sig=(n, d, field, "non-uniform-prior"), nt=True, mech=f"state_exclusion-unambiguous:primal!=dual[{field}]",
+        ctx.check("O4:unambiguous-primal=dual", None, dev=abs(a - b), tol=tol, sig=(n, d, field, "non-uniform-prior", bool(kw), 0.01 < a < 0.99), nt=True, mech=f"state_exclusion-unambiguous:primal!=dual[{field}]",
                   detail={"primal": a, "dual": b, "prior": p, "n": n, "d": d})
         ctx.sample("O4:unambiguous-primal=dual", {"n": n, "d": d, "field": field, "prior": p, "primal": a, "dual": b})
